@@ -291,12 +291,28 @@ def ob_call_node(ctx):
 def ob_arity(ctx):
     """assert_eq!(args, params) in the call paths: the resolver rejects a wrong argument count for named callees."""
     ce = ctx.need("resolver::Resolver::check_expr")
+    # read from the compiled body: a comparison of the call's argument count with the callee's declared count (a built-in's
+    # arity(), a script function's parameter count) whose "differs" side reports an error - however the two counts are named
     n = 0
-    for i in ce.ifs:
-        txt = str(i["cond"])
-        if "'op': 'Ne'" in txt and "arity" in txt and any("emit_error" in c for c in i["then_calls"]):
-            n += 1
-    return n >= 3, "%d arity comparisons (`len != arity`) that emit an error in check_expr" % n
+    tests = {}
+    for S in sorted(ce.live):
+        if ce.blocks[S]["t"]["k"] != "switch":
+            continue
+        si = ce.switch_info(S)
+        if si["kind"] != "bin" or si["op"] not in ("Ne", "Eq"):
+            continue
+        a, b = sh(ne(ce.deep(si["a"]))), sh(ne(ce.deep(si["b"])))
+        if any(x.startswith("len(") and ".args" in x for x in (a, b)) and any(("arity(" in x or "lookup_func(" in x) for x in (a, b)):
+            tests[S] = si["op"]
+    hit = set()
+    for c in ce.calls():
+        if not (c.callee or "").endswith("emit_error"):
+            continue
+        for S, al in ce.constraints(c.block):
+            if S in tests and ((tests[S] == "Ne" and 0 not in al) or (tests[S] == "Eq" and list(al) == [0])):
+                hit.add(S)
+    n = len(hit)
+    return n >= 3, "%d arity comparisons (argument count against the declared count) whose unequal side emits an error in check_expr" % n
 
 
 AST_OBLIGATIONS = [
